@@ -638,13 +638,14 @@ def r33(ctx: Ctx) -> RuleReport:
         for i, nm in enumerate(unp):
             if nm == '_':
                 rep.add(f'{f2.fq}: bucket {buckets[i] if i < len(buckets) else i} is discarded', f2.loc(),
-                        'exception' if i in discard_ok else 'undecided',
+                        'exception' if i in discard_ok else 'violation',
                         'attribute reification has no nested node to open: the Push of an attribute triple cannot exist' if i in discard_ok
                         else 'markers of this kind are silently lost')
                 continue
             used = sum(1 for n in walk_local(f2.node) if isinstance(n, ast.Name) and n.id == nm and isinstance(n.ctx, ast.Load))
-            rep.add(f'{f2.fq}: bucket {nm} is carried over', f2.loc(), 'ok' if used else 'undecided',
-                    '' if used else 'unpacked but never used')
+            rep.add(f'{f2.fq}: bucket {nm} is carried over', f2.loc(), 'ok' if used else 'violation',
+                    '' if used else f'`{nm}` is unpacked from _reified_markers but never read afterwards: markers of this kind are silently lost '
+                                    f'when the triple is replaced')
     return rep
 
 
@@ -671,6 +672,15 @@ def r38(ctx: Ctx) -> RuleReport:
                 fx = cand
     key1 = f'{fi.fq}: agenda entry requires: not fixed (not the top, not referenced elsewhere)'
     if fx is None:
+        # a set that is filled but never consulted is positive evidence that the test was lost
+        for nm in sorted({n.func.value.id for n in walk_local(fi.node) if isinstance(n, ast.Call) and isinstance(n.func, ast.Attribute)
+                          and n.func.attr == 'add' and isinstance(n.func.value, ast.Name)}):
+            reads = [x for x in walk_local(fi.node) if isinstance(x, ast.Name) and x.id == nm and isinstance(x.ctx, ast.Load)
+                     and not (isinstance(pm.get(id(x)), ast.Attribute) and pm[id(x)].attr in ('add', 'update', 'discard'))]
+            if not reads:
+                rep.violation(key1, fi.loc(st), f'the set `{nm}` is filled but never consulted, and the agenda store is guarded only by '
+                              f'{sorted(f for f, p in facts if p)}: the top, or a node that other edges point to, can be collapsed')
+                return rep
         rep.undecided(key1, fi.loc(st), f'guards present: {sorted(f for f, p in facts if p)}')
         return rep
     rep.ok(key1, fi.loc(st), f'{var} not in {fx}')
